@@ -1,3 +1,4 @@
 import ArimModel.Wire
 import ArimModel.MinPlus
 import ArimModel.Fermat
+import ArimModel.Chunk
